@@ -5,6 +5,7 @@ import (
 	"go/token"
 	"go/types"
 	"sort"
+	"strings"
 
 	"golang.org/x/tools/go/ssa"
 
@@ -43,13 +44,50 @@ func closedSites(c *core.Ctx, what string, method *types.Func, table map[string]
 	for _, row := range table {
 		want += row.n
 	}
+	// sites that merely moved inside their package (a helper inlined into its caller, a block extracted into a helper) stay within the
+	// package's budget: rows of the package minus what the listed functions still hold
+	pkgOf := func(fname string) string {
+		f := strings.TrimPrefix(strings.TrimPrefix(fname, "(*"), "(")
+		if i := strings.LastIndex(f, "/"); i >= 0 {
+			if d := strings.Index(f[i:], "."); d >= 0 {
+				return f[:i+d]
+			}
+			return f
+		}
+		if d := strings.Index(f, "."); d >= 0 {
+			return f[:d]
+		}
+		return f
+	}
+	budget := map[string]int{}
+	for n, row := range table {
+		budget[pkgOf(n)] += row.n
+	}
+	for _, n := range names {
+		if row, ok := table[n]; ok {
+			use := len(by[n])
+			if use > row.n {
+				use = row.n
+			}
+			budget[pkgOf(n)] -= use
+		}
+	}
 	for _, n := range names {
 		row, ok := table[n]
 		total += len(by[n])
+		extra := len(by[n]) - row.n
+		if !ok {
+			extra = len(by[n])
+		}
+		if extra > 0 && budget[pkgOf(n)] >= extra {
+			budget[pkgOf(n)] -= extra
+			c.CheckTrivial(what+"@"+n, "who-may-call", true, by[n][0].Instr.Pos(), "%d call site(s) of %s in %s, %d more than its row: moved here from another listed function of the package (the package's total did not grow)", len(by[n]), what, n, extra)
+			continue
+		}
 		c.Check(what+"@"+n, "who-may-call", ok && len(by[n]) <= row.n, by[n][0].Instr.Pos(),
 			"%d call site(s) of %s in %s; the frozen table allows %d (%s)", len(by[n]), what, n, row.n, orNoneM(row.class))
 	}
-	c.Exactly(what+"-sites", total, want)
+	c.Check(what+"-sites", "instance-count", total <= want && total > 0, token.NoPos, "%d call sites of %s in the shipped code, the classified table holds %d (a new site must be classified)", total, what, want)
 	// a method value (acc.SetBalance taken as a func) would be a writer that no call site shows
 	for _, fn := range c.SrcFuncs {
 		if isTestHelper(c, fn) {
